@@ -53,8 +53,54 @@ def _named_dict(node: ast.AST):
     return None
 
 
+def rank_converter(repo, col, R):
+    """`_edge_inds_within_type()[e]` must be the RANK of edge e among the edges of its synapse type (0, 1, 2, ... in edge
+    order): that is how the per-type state and parameter arrays are laid out (edges.groupby('type') in table order).  The
+    distance to the first edge of the type, or any other numbering, differs as soon as two types are interleaved."""
+    fi = repo.method("Module", "_edge_inds_within_type")
+    ex = idx.expander(repo, fi)
+    r = ex.merged_return()
+    if r is None:
+        col.unk(R, fi, "_edge_inds_within_type", "return value not derivable", node=fi.node)
+        return
+    from sa.termalg import term_rat
+    from sa.algebra import Rat, Und
+    rk = T.find(r, lambda x: x.op == "mcall" and x.name == "rank" and x.args[0].op == "mcall" and x.args[0].name == "groupby")
+    by_type = rk is not None and len(rk.args[0].args) > 1 and rk.args[0].args[1].op == "const" and rk.args[0].args[1].name == "type" and \
+        T.find(rk.args[0].args[0], lambda x: x.op == "attr" and x.name == "edges") is not None
+    ok = False
+    if by_type:
+        def leaf(x):
+            if T.find(x, lambda y: y is rk) is not None and x.op != "binop":
+                return Rat.atom("rank")
+            return None
+        try:
+            ok = term_rat(_strip_casts(r), leaf).eq(Rat.atom("rank") - Rat.const(1))
+        except Und:
+            ok = False
+    other = T.find(r, lambda x: x.op == "mcall" and x.name in ("transform", "cumcount", "min", "idxmin", "first"))
+    cum = T.find(r, lambda x: x.op == "mcall" and x.name == "cumcount")
+    if cum is not None and T.find(cum, lambda x: x.op == "const" and x.name == "type") is not None:
+        ok = True  # groupby('type').cumcount() is the same numbering
+    col.add(R, fi, "global edge index -> position within the synapse type is the rank among the edges of that type",
+            "DISCHARGED" if ok else ("VIOLATED" if (other is not None or by_type) else "UNDECIDED"),
+            "edges.groupby('type').rank() - 1" if ok else
+            f"_edge_inds_within_type returns {r.short(120)}: not the 0-based rank within the type; with interleaved synapse types "
+            f"(I, T, T, I, I) recordings and clamps of synaptic states address another synapse", node=fi.node)
+
+
+def _strip_casts(t: T) -> T:
+    while (t.op == "mcall" and t.name in ("to_numpy", "astype", "to_list", "tolist", "copy", "asarray", "array") and t.args) or \
+            (t.op == "sub" and t.args[1].op == "const" and isinstance(t.args[1].name, str)):
+        t = t.args[-1] if t.op == "mcall" and t.args[0].op == "free" else t.args[0]
+    if t.op == "binop":
+        return T("binop", t.name, [_strip_casts(a) for a in t.args], node=t.node)
+    return t
+
+
 def _space_uses(repo, col, cl: Classifier):
     R = "R-C08-space"
+    rank_converter(repo, col, R)
     # ---- integrate: recording gathers  state[rec_state][rec_ind]
     fi = repo.func("jaxley/integrate.py", "integrate")
     ex = idx.expander(repo, fi)
@@ -183,46 +229,87 @@ def _pairing(repo, col, R="R-C08-pairing"):
     """Values and row indices of external inputs are extended in the same order."""
     from . import c19
     c19.pair_delete(repo, col, R)
+    from sa.terms import canon as _canon
+
+    def alts(t, guards):
+        if t.op == "ifexp":
+            return alts(t.args[1], guards + (t.args[0].key(),)) + alts(t.args[2], guards + ("not:" + t.args[0].key(),))
+        return [(guards, t)]
+
+    def order_of(v, is_old):
+        """position of the previously stored rows inside a concatenation: 'old-first' / 'new-first' / 'assign'"""
+        cat = T.find(v, lambda x: (x.op == "mcall" and x.name in ("concatenate", "concat", "vstack", "hstack", "append")))
+        if cat is None:
+            return "assign"
+        lst = next((a_ for a_ in cat.args[1:] if a_.op in ("list", "tuple")), None)
+        elems = list(lst.args) if lst is not None else [a_ for a_ in cat.args[1:]]
+        pos = [i for i, e_ in enumerate(elems) if T.find(e_, is_old) is not None]
+        if not pos:
+            return "assign"
+        return "old-first" if pos[0] == 0 else "new-first"
+
+    def check_pairs(fi, stores, names, old_pred):
+        """stores: list of (dict name, store).  Every path stores both, with the same position of the old rows."""
+        per = {nm: [] for nm in names}
+        for nm, s_ in stores:
+            for g_, v_ in alts(_canon(s_.value), tuple(x.key() for x in s_.guards)):
+                per[nm].append((set(g_), v_, s_))
+
+        def consistent(g1, g2):
+            u = g1 | g2
+            return not any(("not:" + x) in u for x in u if not x.startswith("not:")) and \
+                not any(x.startswith("not(") and x[4:-1] in u for x in u)
+        n_ = 0
+        seen = set()
+        for g1, v1, s1 in per[names[0]]:
+            for g2, v2, s2 in per[names[1]]:
+                if not consistent(g1, g2):
+                    continue
+                pos = {names[0]: order_of(v1, lambda x: old_pred(x, names[0])), names[1]: order_of(v2, lambda x: old_pred(x, names[1]))}
+                k_ = (pos[names[0]], pos[names[1]], id(s2))
+                if k_ in seen:
+                    continue
+                seen.add(k_)
+                n_ += 1
+                ok = len(set(pos.values())) == 1
+                col.check(ok, R, fi, f"{fi.name}: values and row indices are extended in the same order ({pos[names[0]]})",
+                          str(pos),
+                          f"{fi.name} extends the values as {pos[names[0]]} but the row indices as {pos[names[1]]}: every "
+                          f"stimulus/clamp is applied to another input's compartment", node=s2.node)
+        return n_
+
+    total = 0
     for file_fn in (("jaxley/integrate.py", "add_stimuli"), ("jaxley/integrate.py", "add_clamps")):
         fi = repo.func(*file_fn)
         ex = idx.expander(repo, fi)
-        by_guard = {}
-        for s in ex.stores:
-            if s.kind == "sub" and s.base.op == "param" and s.base.name in ("externals", "external_inds"):
-                by_guard.setdefault(tuple(g.key() for g in s.guards), {})[s.base.name] = s
-        for g, d in by_guard.items():
-            if set(d) != {"externals", "external_inds"}:
-                col.bad(R, fi, f"{fi.name}: values and indices stored together", f"only {sorted(d)} stored on one path", node=list(d.values())[0].node)
-                continue
-            pos = {}
-            for nm, s in d.items():
-                v = s.value
-                if v.op == "mcall" and v.name == "concatenate" and v.args[1].op in ("list", "tuple") and len(v.args[1].args) == 2:
-                    first = v.args[1].args[0]
-                    pos[nm] = "old-first" if (first.op == "sub" and first.args[0].op == "param" and first.args[0].name == nm) else "new-first"
-                else:
-                    pos[nm] = "assign"
-            ok = len(set(pos.values())) == 1
-            col.check(ok, R, fi, f"{fi.name}: values and row indices are extended in the same order ({list(pos.values())[0]})",
-                      str(pos),
-                      f"{fi.name} extends the values as {pos['externals']} but the row indices as {pos['external_inds']}: every "
-                      f"stimulus/clamp is applied to another input's compartment", node=d["external_inds"].node)
+        sts = [(s_.base.name, s_) for s_ in ex.stores if s_.kind == "sub" and s_.base.op == "param" and s_.base.name in ("externals", "external_inds")]
+        total += check_pairs(fi, sts, ("externals", "external_inds"),
+                             lambda x, nm: x.op == "sub" and x.args[0].op == "param" and x.args[0].name == nm)
     fi = repo.method("Module", "_external_input")
     ex = idx.expander(repo, fi)
-    d = {}
-    for s in ex.stores:
-        if s.kind == "sub" and s.base.op == "attr" and s.base.name in ("externals", "external_inds") and s.value.op == "mcall" and s.value.name == "concatenate":
-            first = s.value.args[1].args[0]
-            d[s.base.name] = ("old-first" if T.find(first, lambda x: x.op == "attr" and x.name == s.base.name) is not None else "new-first", s)
-    if len(d) == 2:
-        ok = d["externals"][0] == d["external_inds"][0]
-        col.check(ok, R, fi, "_external_input: values and row indices are appended in the same order", str({k: v[0] for k, v in d.items()}),
-                  "values and indices are appended in different orders", node=d["external_inds"][1].node)
+    sts = [(s_.base.name, s_) for s_ in ex.stores if s_.kind == "sub" and s_.base.op == "attr" and s_.base.name in ("externals", "external_inds")]
+    total += check_pairs(fi, sts, ("externals", "external_inds"),
+                         lambda x, nm: x.op == "sub" and x.args[0].op == "attr" and x.args[0].name == nm)
+    if total < 3:
+        raise AnalysisError(f"only {total} paired stores of input values and rows found")
     fi = repo.method("Module", "_data_external_input")
-    src = unparse(fi.node)
-    ok = "external_input = jnp.concatenate([external_input, state_array])" in src and "inds = pd.concat([inds, view])" in src
-    col.check(ok, R, fi, "_data_external_input: values and rows are appended in the same order", "[old, new] for both",
-              "data inputs and their rows are appended in different orders", node=fi.node)
+    ex = idx.expander(repo, fi)
+    r = ex.merged_return()
+    ok = None
+    if r is not None:
+        tup = T.find(r, lambda x: x.op == "tuple" and len(x.args) >= 2)
+        cats = [x for x in r.walk() if x.op == "mcall" and x.name in ("concatenate", "concat")]
+        olds = []
+        for c_ in cats:
+            lst = next((a_ for a_ in c_.args[1:] if a_.op in ("list", "tuple")), None)
+            if lst is not None and len(lst.args) == 2:
+                # the previously accumulated data are the parameters `data_external_input[1]` / `[2]`
+                first_is_old = T.find(lst.args[0], lambda x: x.op in ("sub", "item") and T.find(x, lambda y: y.op == "param" and "external" in str(y.name)) is not None) is not None
+                olds.append("old-first" if first_is_old else "new-first")
+        if len(olds) >= 2:
+            ok = len(set(olds)) == 1
+    col.add(R, fi, "_data_external_input: values and rows are appended in the same order", "DISCHARGED" if ok else ("VIOLATED" if ok is False else "UNDECIDED"),
+            "[old, new] for both" if ok else "data inputs and their rows are appended in different orders / not recognised", node=fi.node)
 
 
 def _inside_nested(fn, node):
@@ -498,12 +585,14 @@ def _recs(repo, col):
         raise AnalysisError("integrate: recording gathers not found")
     forms = []
     for lab, t, gfi in gathers:
-        regroup = T.find(t, lambda x: (x.op in ("mcall", "call")) and x.name in ("unique", "groupby", "sort", "argsort", "sorted", "sort_values", "set"))
-        cmpz = T.find(t, lambda x: x.op == "comp" and len(x.args) >= 2 and x.args[1].op == "call" and x.args[1].name == "zip")
-        in_order = cmpz is not None and len(cmpz.args[1].args) == 2 and \
-            all(T.find(a, lambda x: x.op == "attr" and x.name == "recordings") is not None for a in cmpz.args[1].args) and \
-            t.op == "mcall" and t.name in ("asarray", "array", "stack")
-        forms.append(cmpz.args[1].key() if cmpz is not None else None)
+        regroup = T.find(t, lambda x: (x.op in ("mcall", "call")) and x.name in ("unique", "groupby", "sort", "argsort", "sorted", "sort_values", "set") and
+                         T.find(x, lambda y: y.op == "attr" and y.name == "recordings") is not None)
+        # the sequence that is walked: zip(states, indices) -- as the iterable of a comprehension or of a loop that appends
+        zc = T.find(t, lambda x: x.op == "call" and x.name == "zip" and len(x.args) == 2 and
+                    all(T.find(a, lambda y: y.op == "attr" and y.name == "recordings") is not None for a in x.args))
+        one_pass = T.find(t, lambda x: x.op in ("comp", "listacc")) is not None
+        in_order = zc is not None and one_pass and t.op == "mcall" and t.name in ("asarray", "array", "stack")
+        forms.append(zc.key() if zc is not None else None)
         col.add(R, gfi, f"{lab} gather: one row per recording in the order of the recordings table",
                 "DISCHARGED" if (in_order and regroup is None) else ("VIOLATED" if regroup is not None else "UNDECIDED"),
                 "rows are stacked from a single pass over zip(rec_states, rec_inds)" if in_order and regroup is None else
@@ -516,16 +605,17 @@ def _recs(repo, col):
     # conversion of the index -- global edge index -> position within the synapse type -- keeps the order)
     zz = forms[0] if forms and forms[0] is not None else None
     for lab, t, gfi in gathers[:1]:
-        cmpz = T.find(t, lambda x: x.op == "comp" and len(x.args) >= 2 and x.args[1].op == "call" and x.args[1].name == "zip")
-        if cmpz is None:
+        zc = T.find(t, lambda x: x.op == "call" and x.name == "zip" and len(x.args) == 2)
+        if zc is None:
             continue
         cols_found = set()
-        for a_ in cmpz.args[1].args:
+        for a_ in zc.args:
             for cname in ("rec_index", "state"):
                 if T.find(a_, lambda x: x.op == "attr" and x.name == cname and T.find(x, lambda y: y.op == "attr" and y.name == "recordings") is not None) is not None:
                     cols_found.add(cname)
-            resort = T.find(a_, lambda x: x.op in ("mcall", "call") and x.name in ("unique", "sort", "argsort", "sorted", "sort_values", "set", "groupby"))
-            col.check(resort is None, R, fi, f"recording {('states', 'indices')[a_ is cmpz.args[1].args[-1]]} are taken in table order", "no regrouping",
+            resort = T.find(a_, lambda x: x.op in ("mcall", "call") and x.name in ("unique", "sort", "argsort", "sorted", "sort_values", "set", "groupby") and
+                            T.find(x, lambda y: y.op == "attr" and y.name == "recordings") is not None)
+            col.check(resort is None, R, fi, f"recording {('states', 'indices')[a_ is zc.args[-1]]} are taken in table order", "no regrouping",
                       f"`{resort.short(60) if resort else ''}` reorders the recordings relative to the table", node=asg)
         col.check(cols_found == {"rec_index", "state"}, R, fi, "the gathers pair recordings.state with recordings.rec_index", str(sorted(cols_found)),
                   f"the zipped sequences derive from columns {sorted(cols_found)} of the recordings table", node=asg)
